@@ -1,5 +1,6 @@
 import Driver.Common
 import JsonC.Model.Tokener
+import JsonC.Spec.Rfc8259
 /-! tokener component: the byte-driven machine of JsonC.Tokener behind the line protocol of harness/tok.c -/
 namespace Driver.Tok
 open JsonC JsonC.Tokener Driver
@@ -63,6 +64,16 @@ def step (s : St) (w : List String) : St × Out :=
     | _, _ => (s, { model := "bad-op" })
   | ["p", h] => match ofHex h with | some d => parseWith s d false | none => (s, { model := "bad-op" })
   | ["pz", h] => match ofHex h with | some d => parseWith s d true | none => (s, { model := "bad-op" })
+  | ["doc", d, h] =>
+    -- specification side only: is the text RFC 8259, and what must parsing it with depth limit `d` give?
+    match ofHex h, d.toNat? with
+    | some bs, some lim =>
+      match Rfc8259.Text.ofBytes bs with
+      | none => (s, { model := "doc invalid" })
+      | some t =>
+        let deep := match t.doc.firstDeep lim 0 t.lead.length with | some o => toString o | none => "-"
+        (s, { model := s!"doc ok {t.doc.nest} {t.doc.intsFit} {t.doc.keysNulFree} {deep} {t.doc.denote.dump}" })
+    | _, _ => (s, { model := "bad-op" })
   | ["reset"] => match s.tok with
     | some t => ({ tok := some (Tokener.reset t), poisoned := false }, { model := "ok" })
     | none => (s, { model := "no-tokener" })
